@@ -99,7 +99,31 @@ def new_interp(prog, loop_bound=12):
     def m_key(I, st, f, args, fr):
         mr, idx = dref(I, st, args[0])
         return I.ret(st, Ref(mr.cell, mr.path + (idx, 0)))
-    I.type_drops['DashRef'] = lambda I, st, v, ref: I.ret(st, UNIT)
+    def release(I, st, v, ref=None):
+        """a guard on an entry of the forward map `PgState.map` is released: record whether the group's listing in the scope index agrees with its membership
+        at that moment (the entry lock is what serialises operations on one group: the agreement must hold whenever it is not held)"""
+        try:
+            mr, idx = v.fields[0], v.fields[1]
+            if isinstance(mr, Ref) and mr.cell == st.ghost.get('pg_cell') and mr.path == (0,) and isinstance(idx, int):
+                pg = I.read(st, mr.cell, ())
+                ents = pg.fields[0].fields
+                if idx < len(ents):
+                    k = ents[idx].fields[0]
+                    has = len(ents[idx].fields[1].fields[0].fields) > 0
+                    sc, g = k.fields[0].s, k.fields[1].s
+                    listed = any(e.fields[0].s == sc and any(x.s == g for x in e.fields[1].fields) for e in pg.fields[1].fields)
+                    st.emit('RELEASE', (sc, g), has, listed)
+        except Exception:   # noqa (shape not as expected: the invariant claim is simply not recorded for this release)
+            st.emit('RELEASE', None, None, None)
+        return I.ret(st, UNIT)
+    I.type_drops['DashRef'] = release
+    prev_occ = I.type_drops.get('OccupiedEntry')
+
+    def drop_occ(I, st, v, ref):
+        if v.fields and isinstance(v.fields[0], Ref):
+            return release(I, st, v, ref)
+        return prev_occ(I, st, v, ref) if prev_occ else I.ret(st, UNIT)
+    I.type_drops['OccupiedEntry'] = drop_occ
 
     def default_of(I, st, f, fr):
         m = re.search(r'Entry::<.*?, (.*)>::or_default$', f)
